@@ -118,15 +118,16 @@ def nibble_decode(facts):
             o = outcomes(fn["body"])
         elif fn["name"] == "get_value" and "const_iterator" in rect and "HllArray" in rect:
             key = "HllArray::const_iterator::get_value:HLL_4-outcomes"
-            branch = None
-            for s in stmts_of(fn["body"]):
-                if s.get("k") == "If" and "HLL_4" in json.dumps(s["c"]):
-                    branch = s["t"]
-                    break
-            if branch is None:
+            # the return statements reached under `hll_type == HLL_4` (if-chain or switch)
+            rets = []
+            walk(fn["body"], lambda n: rets.append(n) if n.get("k") == "Return" and n.get("e") is not None else None)
+            h4 = [r for r in rets if any("HLL_4" in json.dumps(l) and strip(l).get("op") == "==" for l in reach(fn["body"], r))]
+            if not h4:
                 out.append(ob("hll.decode", key, fn["pat"], "unrecognised", "HLL_4 branch not found", fn["qname"]))
                 continue
-            o = outcomes(branch)
+            o = set()
+            for r in h4:
+                o |= outcomes(r)
         else:
             continue
         if o == {"aux-lookup", "raw+curMin"}:
